@@ -105,6 +105,40 @@ def label_stream(ctx, rng, n):
     return len(lits)
 
 
+# focused programs of the stream `assign`: mostly item / slice assignment (npc Array, ndarray and scalar values) on tensors with many
+# missing blocks, interleaved with the operations that read the result (getitem, gauge_total_charge, storage operations; all others rarely)
+ASSIGN_WEIGHTS = {'setitem': 14.0, 'getitem': 2.0, 'gauge_total_charge': 2.0, 'storage': 1.0, '*': 0.15}
+ASSIGN_P_MISSING = [0.25, 0.4, 0.6]
+ASSIGN_CLASSES = ('value-fewer-blocks', 'value-same-count', 'value-more-blocks')
+
+
+def assign_stream(ctx, rng, n, seen, all_hist):
+    """`a[inds] = value` with an npc Array value whose stored blocks are chosen independently of the blocks a[inds] stores (value stores blocks
+    a[inds] lacks, lacks blocks a[inds] stores, same count at other positions, none, all; zero blocks stored or not; blocks in shuffled order),
+    for slices / masks / index arrays / mixed integer indices, compared with the numpy assignment on the dense forms; several assignments to the
+    same tensor in a row, so that the block pattern of `a` is itself the result of earlier assignments"""
+    progs = [npc_gen.make_program(rng, ctx.tier, record_coq=0, keep_flagged=True, rich=(i % 2 == 1), sparse_values=True,
+                                  op_weights=ASSIGN_WEIGHTS, p_missing=ASSIGN_P_MISSING) for i in range(n)]
+    for p in progs:
+        p['nsteps'] += 3
+    cov = {}
+    for config in ('py', 'cy'):
+        results, infos, crashes = cc.run_programs('programs', progs, config, False)
+        hist, notes = cc.collect(ctx, PROP, 'assign-' + config, progs, results, crashes, config, False, seen_keys=seen)
+        all_hist['assign-' + config] = {k: v for k, v in sorted(hist.items())}
+        pre = 'setitem-npc:part-stores-block-the-value-lacks:'
+        cov[config] = {'programs': len(progs), 'setitem': hist.get('op:setitem', 0), 'npc_values': hist.get('setitem-npc', 0),
+                       'with_mask_or_index_array': hist.get('setitem-npc:mask-or-index-array', 0),
+                       'value_stores_block_the_part_lacks': hist.get('setitem-npc:value-stores-block-the-part-lacks', 0),
+                       'value_without_blocks': hist.get('setitem-npc:value-without-blocks', 0),
+                       'part_stores_block_the_value_lacks': {c: hist.get(pre + c, 0) for c in ASSIGN_CLASSES}}
+        d = cov[config]['part_stores_block_the_value_lacks']
+        if ctx.tier == 'quick' and n >= 800 and (d['value-same-count'] + d['value-more-blocks'] < 8 or d['value-fewer-blocks'] < 20):
+            ctx.fail('correspondence', 'the assignment stream reached too few assignments where a[inds] stores a block that the value does not '
+                     'store: %s (%s)' % (d, config), None)
+    ctx.cov['assignment'] = cov
+
+
 def main(ctx):
     if ctx.replay_in:
         ctx.proof = None
@@ -120,7 +154,8 @@ def main(ctx):
     # rebuilds / permutes the block table is, with probability P_CHAIN, immediately combined with a fresh partner tensor (different
     # block pattern) by add / sub / iadd_prefactor_other / (i)binary_blockwise / inner / tensordot; tensors whose dense form is right
     # but whose cached flags are wrong stay alive (keep_flagged) so that operations trusting the flag are compared with numpy
-    programs = corpus + [npc_gen.make_program(rng, ctx.tier, record_coq=2, p_chain=P_CHAIN, keep_flagged=True, rich=(i % 2 == 1))
+    # sparse_values: in all programs the value of `a[inds] = value` has a block sparsity of its own (see npc_gen.OpSetitem.sparsify)
+    programs = corpus + [npc_gen.make_program(rng, ctx.tier, record_coq=2, p_chain=P_CHAIN, keep_flagged=True, rich=(i % 2 == 1), sparse_values=True)
                          for i in range(nprog)]
     seen = {}
     all_hist = {}
@@ -140,6 +175,7 @@ def main(ctx):
     hist, notes = cc.collect(ctx, PROP, 'legs', legprogs, results, crashes, 'py', False, kind='legs', seen_keys=seen)
     all_hist['legs'] = hist
     nlab = label_stream(ctx, rng, ctx.pick(400, 3000))
+    assign_stream(ctx, rng, ctx.pick(800, 6000) * (1 if ctx.proof.ok else 3), seen, all_hist)
     ctx.cov['traces_validated_against_impl'] = sum(v['cases'] for v in coq_done.values()) + nlab
     ctx.cov['model_vs_impl'] = coq_done
     ctx.cov['input_distribution'] = all_hist
@@ -176,5 +212,8 @@ RULE = ('random programs (2-3 initial tensors + 1-6 (quick) / 1-12 (thorough) op
         'duplicated / size-0 charge blocks, LegPipes, rank 1-4 (thorough 1-6), nonzero qtotal, missing and zero blocks, float/complex/int entries; ~10% malformed '
         'operations expecting an error class; every second program over legs with 2-4 charge blocks of >= 2 different charges; with probability 0.8 the '
         'result of an operation that rebuilds the block table is next combined with a fresh partner tensor by add / sub / iadd_prefactor_other / '
-        '(i)binary_blockwise / inner / tensordot, statistics in coverage.permute_then_binary).  One case = one program; evaluations counts steps; a program is non-trivial when some step produced a tensor '
+        '(i)binary_blockwise / inner / tensordot, statistics in coverage.permute_then_binary); the value of an assignment a[inds] = value stores its own '
+        'selection of blocks (independent of the blocks a[inds] stores: more / fewer / the same number at other positions / none / all, zero blocks stored '
+        'or not, shuffled order); stream `assign`: programs of mostly such assignments on tensors with 25-60% missing blocks (statistics in '
+        'coverage.assignment).  One case = one program; evaluations counts steps; a program is non-trivial when some step produced a tensor '
         'with a non-zero entry; distinct = distinct (seed, operation sequence).  Each program is run in the py and the cy configuration.')
